@@ -45,16 +45,16 @@ const (
 
 // An Expr is a canonical, name-erased description of where a value comes from.
 type Expr struct {
-	Op   Op
-	Name string
-	Typ  types.Type
-	Args []*Expr
-	V    ssa.Value
-	Fn   *ssa.Function
-	Idx  int
-	Obj  types.Object
-	Tok  token.Token
-	Cval constant.Value
+	Op      Op
+	Name    string
+	Typ     types.Type
+	Args    []*Expr
+	V       ssa.Value
+	Fn      *ssa.Function
+	Idx     int
+	Obj     types.Object
+	Tok     token.Token
+	Cval    constant.Value
 	CommaOk bool
 }
 
@@ -225,6 +225,39 @@ func (c *seeCtx) of1(v ssa.Value) *Expr {
 	case *ssa.Lookup:
 		return &Expr{Op: OpElem, Args: []*Expr{c.of(v.X), c.of(v.Index)}, CommaOk: v.CommaOk}
 	case *ssa.Slice:
+		// varargs / array literal: new [N]T; stores to &a[i]; slice a[:]
+		if al, ok := v.X.(*ssa.Alloc); ok {
+			if at, ok := al.Type().(*types.Pointer).Elem().Underlying().(*types.Array); ok && v.Low == nil && v.High == nil {
+				lst := &Expr{Op: OpStruct, Name: "list", Typ: v.Type(), Args: make([]*Expr, at.Len())}
+				okAll := true
+				if refs := al.Referrers(); refs != nil {
+					for _, r := range *refs {
+						switch r := r.(type) {
+						case *ssa.IndexAddr:
+							ci, isC := r.Index.(*ssa.Const)
+							if !isC {
+								okAll = false
+								continue
+							}
+							idx, _ := constant.Int64Val(ci.Value)
+							if rr := r.Referrers(); rr != nil {
+								for _, u := range *rr {
+									if st, ok := u.(*ssa.Store); ok && st.Addr == r && int(idx) < len(lst.Args) {
+										lst.Args[idx] = c.of(st.Val)
+									}
+								}
+							}
+						case *ssa.Slice:
+						default:
+							okAll = false
+						}
+					}
+				}
+				if okAll {
+					return lst
+				}
+			}
+		}
 		return &Expr{Op: OpSlice, Args: []*Expr{c.of(v.X)}}
 	case *ssa.MakeSlice:
 		return &Expr{Op: OpMake, Name: typeString(v.Type()), Args: []*Expr{c.of(v.Len), c.of(v.Cap)}}
@@ -291,7 +324,7 @@ func mkPhi(alts []*Expr, t types.Type) *Expr {
 	var out []*Expr
 	var add func(e *Expr)
 	add = func(e *Expr) {
-		if e.Op == OpLoop {
+		if e.Op == OpLoop && e.Idx == 0 {
 			return
 		}
 		if e.Op == OpPhi {
@@ -784,6 +817,9 @@ func (e *Expr) String() string {
 	case OpZero:
 		return "zero"
 	case OpLoop:
+		if e.Name != "" {
+			return "loop:" + e.Name
+		}
 		return "loop"
 	}
 	return "?" + e.Name
